@@ -105,7 +105,7 @@ func c17GetHarness(env model.Env) *harness {
 func checkC17(c caseC17) (Outcome, error) {
 	var out Outcome
 	today := c17Days[c.Day%len(c17Days)]
-	env := model.Env{NowDay: today, NowSec: c.Min*60 + (c.Min*7)%60}
+	env := model.Env{NowDay: today, NowSec: c.Min * 60} // seconds 0: whether klog truncates or rounds the seconds is not specified
 	if c.ViaConfig {
 		env.DefaultRound = c.Round
 	}
@@ -186,6 +186,15 @@ func checkC17(c caseC17) (Outcome, error) {
 		}
 		out.Label("refused:" + c.Op)
 		out.NonTrivial = true
+		return out, nil
+	}
+	if model.Unspecified {
+		// e.g. switch when only yesterday's record has an open range: C17 promises the fallback
+		// for stop and is silent about switch; the written time must still parse
+		if _, _, errs := parser.NewSerialParser().Parse(after); errs != nil {
+			return out, fmt.Errorf("the result does not parse\n%s", where())
+		}
+		out.Label("unspecified:" + c.Op)
 		return out, nil
 	}
 	if reject {
